@@ -113,7 +113,14 @@ pub fn render_obo(rng: &mut Rng, f: &Facts, flags: &Flags, case: &mut Case, oo: 
             });
             case.stat("bare_stanzas", 1);
         }
-        if rng.chance(1, 4) {
+        if rng.chance(1, 4) && l.len() > 3 {
+            // tag order is free: all lines behind the id in a random order (is_a lines apart from
+            // each other, separated by xref / synonym / def lines)
+            let mut tail: Vec<String> = l.split_off(2);
+            rng.shuffle(&mut tail);
+            l.extend(tail);
+            case.stat("stanzas_with_shuffled_lines", 1);
+        } else if rng.chance(1, 4) {
             // tag order is free: the name as the LAST line of the stanza
             let nmline = l.remove(2);
             l.push(nmline);
